@@ -205,6 +205,80 @@ fn unsized_empty(g: &mut Grid) {
     }
 }
 
+/// counts whose low bits look like "1": with two real owners and the count word forced to such a
+/// value every uniqueness-gated API must still decline (the whole word is the count)
+fn big_counts(g: &mut Grid) {
+    use std::sync::atomic::{AtomicUsize, Ordering};
+    let vals: Vec<usize> = [8u32, 16, 24, 31, 32, 33, 40, 48, 56, 62].iter().map(|k| (1usize << k) + 1).collect();
+    for &v in &vals {
+        for api in ["is_unique", "get_mut", "get_unique", "try_unique", "try_unwrap", "make_mut", "offset_make_mut"] {
+            let case = format!("count word = {:#x} (two real owners) api={}", v, api);
+            vrt::begin_execution();
+            g.case(format!("bigcount|{}|{}", v.trailing_zeros().max((usize::BITS - 1) - v.leading_zeros()), api), || case.clone());
+            let mut a = cap(|| Arc::new(D8a8::make(1)));
+            let b = cap(|| a.clone());
+            let k = vrt::rmwlog::len();
+            let _ = Arc::count(&a);
+            let addr = vrt::rmwlog::since(k).iter().find(|o| o.kind == vrt::rmwlog::AKind::Load).map(|o| o.addr).expect("count read issued no load");
+            let word = unsafe { &*(addr as *const AtomicUsize) };
+            word.store(v, Ordering::SeqCst);
+            let block = a.heap_ptr() as usize;
+            let granted = match api {
+                "is_unique" => a.is_unique(),
+                "get_mut" => Arc::get_mut(&mut a).is_some(),
+                "get_unique" => Arc::get_unique(&mut a).is_some(),
+                "try_unique" => match Arc::try_unique(a) {
+                    Ok(u) => {
+                        a = u.shareable();
+                        true
+                    }
+                    Err(x) => {
+                        a = x;
+                        false
+                    }
+                },
+                "try_unwrap" => match Arc::try_unwrap(a) {
+                    Ok(val) => {
+                        // the value was moved out from under `b`: stop here without touching either
+                        std::mem::forget(val);
+                        std::mem::forget(b);
+                        g.fail("uniqueness-verdict:try_unwrap", &case, "try_unwrap moved the value out although another owner exists".into());
+                        continue;
+                    }
+                    Err(x) => {
+                        a = x;
+                        false
+                    }
+                },
+                "make_mut" => {
+                    cap(|| {
+                        let _ = Arc::make_mut(&mut a);
+                    });
+                    a.heap_ptr() as usize == block
+                }
+                _ => {
+                    let mut o = cap(|| Arc::into_raw_offset(a));
+                    cap(|| {
+                        let _ = o.make_mut();
+                    });
+                    a = cap(|| Arc::from_raw_offset(o));
+                    a.heap_ptr() as usize == block
+                }
+            };
+            if granted {
+                g.fail(&format!("uniqueness-verdict:{}", api), &case, format!("{} treated the handle as the sole owner with the count at {:#x}", api, v));
+            }
+            // put the real count back before releasing anything
+            let moved = a.heap_ptr() as usize != block;
+            word.store(if moved { 1 } else { 2 }, Ordering::SeqCst);
+            cap(|| drop((a, b)));
+            if !arena::live_blocks().is_empty() || arena::n_errors() != 0 {
+                g.fail("release", &case, format!("after releasing everything: live {:?} errors {:?}", arena::live_blocks(), arena::errors_since(0)));
+            }
+        }
+    }
+}
+
 pub fn run(_tier: &str) -> Vec<Grid> {
     let mut g = Grid::new("c03.degenerate", "payload shape (zero-sized incl. over-aligned, 1-byte, ordinary; empty slices, empty str, MaybeUninit<()>) x co-owner kind x uniqueness-gated API: granted iff exactly one owning handle; co-owners keep an accurate count");
     sized::<D0a1>(&mut g);
@@ -214,5 +288,6 @@ pub fn run(_tier: &str) -> Vec<Grid> {
     sized::<D24a8>(&mut g);
     sized::<D64a64>(&mut g);
     unsized_empty(&mut g);
+    big_counts(&mut g);
     vec![g]
 }
